@@ -15,27 +15,34 @@ PROP = "C06"
 COQ_EXTRA = ["theories/Model/ComposeCases.vo", "theories/Gen/ComposeGen.vo"]
 PARTIAL = [
     "date-times are abstract in the model (an aware datetime is the text its formatting gives; formatting and parsing of date-times is C09); "
-    "the harness supplies that text from its own formatter and compares instants with its own reader",
-    "the writers (ElementTree html method, tostring_unclosed_elements, indent) and the reader are not modelled here: the model yields the element tree "
-    "and the header text; reading the bytes back is done by the correspondence run on every case (composed_parses_back belongs to the C01 integration)",
+    "the harness supplies that text from its own formatter and compares instants with its own reader; UTC offsets outside -12h..+14h "
+    "(refused by the library's reader) and years < 1000 are outside the domain",
+    "the writers (ElementTree html method, tostring_unclosed_elements, indent) and the readers are not modelled here: the model yields the element "
+    "tree and the header text; reading the bytes back is done by the correspondence run on every case, by the library and by an independent "
+    "tokenizer (composed_parses_back = composition with C01's wire round trip is left to the integration step and is not stated)",
     "a str handed to a constructor is passed through saxutils.unescape by String.convert: a caller's value containing an entity reference "
-    "(&amp; &lt; &gt; &quot; &apos; &nbsp;) is changed before it is written; the theorems state the written value as [unescape v] and equal to v "
-    "when v has no '&' (recorded finding entity-reference-in-value-unescaped)",
-    "tax years: Python int() is modelled on ASCII text; values with leading/trailing whitespace are outside the domain (the reader strips them)",
+    "(&amp; &lt; &gt; &quot; &apos; &nbsp;) is changed before it is written; the theorems state the written value as [norm v] (= v when v has no '&'); "
+    "recorded finding entity-reference-in-value-unescaped with the witness signon_entity_refuted",
+    "values with leading/trailing whitespace are outside the domain (the readers strip element data); tax years: Python int() is modelled on ASCII text; "
+    "a tax request with no year and no id (an empty TAX1099RQ) is not generated without end tags",
+    "the constructor guard is modelled and proved (v2_refuses_unclosed) but observed through requests only: removing it alone is not reported, "
+    "because serialize still refuses and no 2xx request without end tags is composed",
 ]
 MANIFEST = {
     "engine": "Compose",
-    "text": "Theorems about the executable model of request composition, for every configuration and every list of requests (any length, order, mix): "
-            "the sign-on carries exactly the supplied identifiers (FI iff ORG, CLIENTUID iff configured and version >= 103); the message sets present are "
-            "exactly those with a request, the wrappers under each are the requests of its kinds in request order within each kind (closed form of the "
-            "stable sort / groupby pipeline), each carrying its request's identifiers, dates and flags; transaction ids are pairwise distinct given a "
-            "duplicate-free uuid stream; the header carries the version; versions 2xx refuse close_elements=False at construction and in serialize; the tax "
-            "request carries years, recipient id and account number. The model is tied to Client.py by regenerating defaults / class shapes from the live "
-            "classes (schema_as_modelled is an obligation) and by evaluating it inside Coq on the same ~10^3 (thorough ~2*10^4) cases as the implementation, "
-            "whose dry-run bytes are read back by the library and by an independent tokenizer.",
-    "note": "Trusted: Coq kernel + vm_compute; the hand transcription Model/Compose.v (validated by the correspondence run only); the translator; "
-            "the harness's date formatter/reader and tokenizer. Known findings: values with entity references are unescaped at construction; the unclosed "
-            "writer does not escape (C11's repair).",
+    "text": "Ten obligations about the executable model of request composition. For every configuration and EVERY list of requests (any length, order, "
+            "mix) the composed body is OFX[sign-on; BANKMSGSRQV1[closing, statement wrappers]; CREDITCARDMSGSRQV1[...]; INVSTMTMSGSRQV1[...]] with a message "
+            "set present iff it has a wrapper and the wrappers of each kind in request order within the kind (closed form of the sorted/groupby/sort/"
+            "groupby/dict pipeline, proved from a stable-sort-by-rank lemma), each wrapper carrying its request's ids, type, dates and flags; exactly one "
+            "sign-on with the supplied identity (FI iff ORG, CLIENTUID iff configured and version >= 103); TRNUIDs pairwise distinct, one per request, given a "
+            "duplicate-free uuid stream; header text carries the effective version; 2xx + close_elements=False is refused by the constructor and by "
+            "serialize, so never composed; the tax request carries ACCTNUM, RECID and the years. The model is tied to Client.py by regenerating defaults, "
+            "class names and the shapes of the 31 aggregate classes from the live classes (schema_as_modelled is an obligation) and by evaluating it inside "
+            "Coq on the same ~10^3 (thorough ~2*10^4) cases as the implementation, whose dry-run bytes are read back by the library and by an independent "
+            "tokenizer; the property predicate is evaluated on those bytes from the caller's inputs alone.",
+    "note": "Trusted: Coq kernel + vm_compute; the hand transcription Model/Compose.v (validated by the correspondence run only); the translator; the "
+            "harness's date formatter/reader and tokenizer. Print Assumptions: closed under the global context. Known finding: values with entity "
+            "references are unescaped at construction. Fixed: request_tax1099 dropped acctnum (0610dbe); unclosed writer did not escape (29e64bd).",
 }
 VERSIONS = [102, 103, 151, 160, 200, 201, 202, 203, 210, 211, 220]
 KINDS = ["StmtRq", "CcStmtRq", "InvStmtRq", "StmtEndRq", "CcStmtEndRq"]
@@ -574,7 +581,7 @@ def classify(case, diff):
 
     def only_entities(w, g):          # value v came back as unescape(v)
         if isinstance(w, str) and isinstance(g, str):
-            return w != g and py_unescape(w) == g
+            return w != g and py_unescape(w).strip() == g
         if isinstance(w, dict) and isinstance(g, dict) and set(w) == set(g):
             return all(w[k] == g[k] or only_entities(w[k], g[k]) for k in w)
         if isinstance(w, list) and isinstance(g, list) and len(w) == len(g):
@@ -695,7 +702,7 @@ def gen_init(rng, malformed):
             elif m == 10: a["brokerid"] = rng.choice([None, "", "b" * 23])
             elif m == 11: a["userid"] = gen_entity_text(rng)
             elif m == 12: a["org"] = gen_entity_text(rng)
-            elif m == 13: a["bankid"] = gen_entity_text(rng)[:9]
+            elif m == 13: a["bankid"] = (gen_entity_text(rng)[:8] + "z")
             elif m == 14: a["clientuid"] = gen_entity_text(rng)
             else: a["userid"] = rng.choice(["in ner", "a  b"])
         a = {k: v for k, v in a.items() if v is not None or k == "version"}
@@ -704,7 +711,7 @@ def gen_init(rng, malformed):
 
 def gen_entity_text(rng):
     parts = [rng.choice(list(ENTITIES) + ["&amp;amp;", "&amp;lt;", "a", "b&", ";", "&#38;"]) for _ in range(rng.randint(1, 4))]
-    return ("x" + "".join(parts))[:30]
+    return ("x" + "".join(parts))[:28] + "z"        # x...z: the unescaped value has no surrounding whitespace (&nbsp;)
 
 
 def gen_request(rng, malformed, accttypes):
@@ -821,6 +828,20 @@ def observe(case):
     return ("ok", header, tree), fields, problems
 
 
+def must_refuse(case):
+    """"Versions 2xx refuse to omit end tags": the configuration (or the profile request's overrides) asks for a 2xx file
+    without end tags"""
+    eff = effective(case)
+    v = eff["version"]
+    if isinstance(v, int) and v >= 200 and eff["close_elements"] is False:
+        return True
+    if case["op"]["kind"] == "profile":
+        pv = case["op"]["version"] if case["op"]["version"] is not None else v
+        if isinstance(pv, int) and pv >= 200 and eff_close(case) is False:
+            return True
+    return False
+
+
 def _observe_worker(case):
     try:
         return observe(case)
@@ -851,7 +872,7 @@ def run(rep, tier, rng):
         obj = json.load(open(p))
         for c in (obj["cases"] if "cases" in obj else [obj["case"]]):
             cases.append(("corpus:" + os.path.basename(p), c))
-    n_valid, n_mal = (16000, 5000) if thorough else (1000, 320)
+    n_valid, n_mal = (16000, 5000) if thorough else (800, 260)
     for _ in range(n_valid):
         cases.append(("valid", gen_case(rng, False, accttypes)))
     for _ in range(n_mal):
@@ -872,19 +893,12 @@ def run(rep, tier, rng):
             raise RuntimeError("harness error on %s: %s" % (describe_case(case), outcome[1]))
         dom = in_domain(case, LANG_CODES, accttypes)
         eff = effective(case)
-        refusal_expected = False
-        v_eff = eff["version"]
-        if isinstance(v_eff, int) and v_eff >= 200 and eff["close_elements"] is False:
-            refusal_expected = True
-        if case["op"]["kind"] == "profile":
-            pv = case["op"]["version"] if case["op"]["version"] is not None else v_eff
-            if isinstance(pv, int) and pv >= 200 and eff_close(case) is False:
-                refusal_expected = True
+        refusal_expected = must_refuse(case)
         model_case, model_outcome = case, outcome
         if refusal_expected:
             # "Versions 2xx refuse to omit end tags": constructor and serialize
             if outcome[0] not in ("reject", "crash"):
-                fail("v2-unclosed-not-refused", "version %s with close_elements=False was composed instead of refused" % v_eff, case)
+                fail("v2-unclosed-not-refused", "%s: a version 2xx request without end tags was composed instead of refused" % describe_case(case), case)
         elif dom:
             bad = evaluate(case, outcome, fields, problems)
             twin_aspects = None
@@ -961,23 +975,36 @@ def describe_case(case):
 
 
 def replay(obj):
+    """bin/check C06 --replay FILE: FILE is a replay written by a run (failing input / disagreement list) or a corpus file"""
     C.use_repo()
     from ofxtools.models.i18n import LANG_CODES
     from ofxtools.models.bank.stmt import ACCTTYPES
     install_oracles()
-    case = obj["replay"]["case"] if "replay" in obj else obj["case"]
-    outcome, fields, problems = observe(case)
-    print("replay %s" % describe_case(case))
-    if outcome[0] in ("reject", "crash"):
-        print("  implementation refused: %s" % outcome[1])
-        bad = [("request composed", "a request", outcome[1])] if in_domain(case, LANG_CODES, list(ACCTTYPES)) else []
-    elif outcome[0] == "ok-unreadable" or problems:
-        print("  composed bytes not readable back: %s" % (problems,))
-        bad = [("well-formed OFX file", "readable", problems)]
+    if "replay" in obj:
+        cases = [obj["replay"]["case"]]
+    elif "case" in obj:
+        cases = [obj["case"]]
+    elif "cases" in obj:
+        cases = obj["cases"]
     else:
-        bad = predicate(case, fields, outcome[2])
-    for b in bad:
-        print("  %s: expected %r, observed %r" % b)
-    if bad:
-        print("VIOLATION property=C06 replay=(this file)")
-    return 1 if bad else 0
+        cases = [d["case"] for d in obj.get("disagreements", []) if isinstance(d, dict) and "case" in d]
+    status = 0
+    for case in cases:
+        outcome, fields, problems = observe(case)
+        print("replay %s" % describe_case(case))
+        if outcome[0] in ("reject", "crash"):
+            print("  implementation refused: %s" % outcome[1])
+        bad = []
+        if must_refuse(case):
+            if outcome[0] not in ("reject", "crash"):
+                bad = [("versions 2xx refuse to omit end tags", "refusal", "a composed request")]
+        elif in_domain(case, LANG_CODES, list(ACCTTYPES)):
+            bad = evaluate(case, outcome, fields, problems)
+        else:
+            print("  (outside the domain of the property predicate: compared with the model only)")
+        for b in bad:
+            print("  %s: expected %r, observed %r  [%s]" % (b[0], b[1], b[2], classify(case, b)))
+        if bad:
+            print("VIOLATION property=C06 replay=(this file)")
+            status = 1
+    return status
